@@ -3,6 +3,7 @@ from __future__ import absolute_import, division, print_function
 from operator import getitem
 
 from tornado import gen
+from tornado.concurrent import Future
 
 from dask.utils import apply
 from distributed.client import default_client
@@ -134,13 +135,24 @@ class gather(core.Stream):
     buffer
     scatter
     """
+    _turn = None
+
     @gen.coroutine
     def update(self, x, who=None, metadata=None):
         client = default_client()
 
         self._retain_refs(metadata)
-        result = yield client.gather(x, asynchronous=True)
-        result2 = yield self._emit(result, metadata=metadata)
+        # results are passed on in the order in which their futures arrived
+        # here, whatever order the cluster finishes them in
+        previous, turn = self._turn, Future()
+        self._turn = turn
+        try:
+            result = yield client.gather(x, asynchronous=True)
+            if previous is not None:
+                yield previous
+            result2 = yield self._emit(result, metadata=metadata)
+        finally:
+            turn.set_result(None)
         self._release_refs(metadata)
 
         raise gen.Return(result2)
